@@ -867,14 +867,19 @@ def _operand_ty(f, op):
 def run(P, R, tier, cfg):
     roots = inv.entry_points(P)
     R.count("entry_points", len(roots))
-    if len(roots) < FLOORS["entry_points"]:
+    # without the backward-chaining feature only the GRL parser and the expression evaluator read text (counted: union 18,
+    # bc 11, st 11, default 4 entry points; 202 / 202 / 144 / 144 sites)
+    full = cfg in ("union", "bc")
+    floor_entries = FLOORS["entry_points"] if full else 4
+    floor_sites = FLOORS["sites"] if full else 120
+    if len(roots) < floor_entries:
         raise Broken("anchor missing: only %d text entry points found" % len(roots))
     reach = inv.reachable(P, roots)
     sites = inv.sites(P, reach)
     R.count("sites", len(sites))
     R.count("reachable_functions", len(reach))
-    if len(sites) < FLOORS["sites"]:
-        R.undecide("a", "floor", "only %d panic-capable sites found, expected >= %d" % (len(sites), FLOORS["sites"]))
+    if len(sites) < floor_sites:
+        R.undecide("a", "floor", "only %d panic-capable sites found, expected >= %d" % (len(sites), floor_sites))
     reviewed = load_reviewed()
     used = set()
     n_rule = n_rev = 0
